@@ -29,6 +29,9 @@ def run(tier):
                   [s2 for c in range(2) for s2 in tc.sfg_slices(shape, "complete", extra_fix={"1": [c]})],
                   pct=3000, ppt=30, twin="check_propagation_reach",
                   twin_slice=dict(shape=list(shape), mode="complete", src=[0], op=[0]), bounds=tc.SFG_BOUNDS)
+    b.add("propagate_taint vs least fixpoint on the 2-symbol / 3-state template (state inclusion hierarchies)", tc.M,
+          "check_propagation", slices=tc.template_slices("complete"), pct=400 if tier == "quick" else 1500, ppt=30,
+          bounds=tc.TEMPLATE_BOUNDS)
     b.execute()
     r.add_sample({"graph": "v0 -SYMBOL_IS_USED@1-> stmt0(assign_stmt) -SYMBOL_IS_DEFINED-> v1 -SYMBOL_STATE-> t0", "source": "v0",
                   "rules_taint": {"symbols": [0, 1], "states": [0]}})
